@@ -20,7 +20,11 @@ func ringAlias(l string) string { return strings.Replace(l, ".c2.L", ".c1.L", 1)
 
 func runC02(r *Report) {
 	p := r.P
-	ringFns := p.Funcs("rueidis.(*ring).")
+	ringFns := ringScope(p)
+	inRing := map[string]bool{}
+	for _, f := range ringFns {
+		inRing[FuncName(TopFunc(f))] = true
+	}
 	r.Anchor("R02", "methods of rueidis.ring", len(ringFns) >= 6)
 	nrc := r.FnAnchor("R02a", "rueidis.(*ring).NextResultCh")
 	fin := r.FnAnchor("R02a", "rueidis.(*ring).FinishResult")
@@ -160,7 +164,7 @@ func runC02(r *Report) {
 	// nobody else touches slot fields
 	for _, f := range []string{"mark", "one", "multi", "resps", "slept"} {
 		for _, a := range p.FieldAccesses(nodeT, f) {
-			if !strings.HasPrefix(FuncName(TopFunc(a.Fn)), "rueidis.(*ring).") {
+			if !inRing[FuncName(TopFunc(a.Fn))] {
 				r.ObSite("R02b", a.Site, "slot-field-outside-ring:"+f, false, "slot state may only be accessed by the ring's own methods")
 			}
 		}
@@ -200,6 +204,28 @@ func runC02(r *Report) {
 			ms = append(ms, Strip(s.Call().Common().Args[0]))
 		}
 		r.Ob("R02c", newRing, "c1-c2-share-mutex", newRing.Pos(), len(ms) == 2 && ms[0] == ms[1], "the two conditions of a slot must be built on the same mutex (the guarded-field and monitor rules rely on it)")
+	}
+	// a transition guard may be established by the caller of a slot helper: (*node).helper() stores
+	// through its receiver, the ring method that calls it tested that node's mark
+	transGuard := func(fn *ssa.Function, blk *ssa.BasicBlock, nodeBase ssa.Value, want int64) bool {
+		if Guarded(blk, func(g Guard) bool { return markGuard(g, nodeBase, want) }) {
+			return true
+		}
+		prm, isp := nodeBase.(*ssa.Parameter)
+		if !isp || len(fn.Params) == 0 || fn.Params[0] != prm {
+			return false
+		}
+		cs := p.Callers(FuncName(fn))
+		if len(cs) == 0 {
+			return false
+		}
+		for _, c := range cs {
+			args := CallArgs(c.Call())
+			if len(args) == 0 || !Guarded(c.Block, func(g Guard) bool { return markGuard(g, args[0], want) }) {
+				return false
+			}
+		}
+		return true
 	}
 	// R02c-iii queued => wake the writer
 	for _, fn := range ringFns {
@@ -248,13 +274,13 @@ func runC02(r *Report) {
 				}
 				walk(a.Block, a.Idx+1, map[*ssa.BasicBlock]bool{})
 				r.ObSite("R02c", a.Site, "queued-wakes-writer", woken, "after a slot becomes queued (mark=1) the writer's condition c2 must be woken on every path, unless the slept flag read in the same critical section says the writer is not waiting")
-				g := Guarded(a.Block, func(g Guard) bool { return markGuard(g, nodeBase, 0) })
+				g := transGuard(fn, a.Block, nodeBase, 0)
 				r.ObSite("R02f", a.Site, "transition:0->1", g, "a slot may be filled (mark=1) only after mark==0 was established under the lock")
 			case 2:
-				g := Guarded(a.Block, func(g Guard) bool { return markGuard(g, nodeBase, 1) })
+				g := transGuard(fn, a.Block, nodeBase, 1)
 				r.ObSite("R02f", a.Site, "transition:1->2", g, "a slot may be handed to the writer (mark=2) only under mark==1")
 			case 0:
-				g := Guarded(a.Block, func(g Guard) bool { return markGuard(g, nodeBase, 2) })
+				g := transGuard(fn, a.Block, nodeBase, 2)
 				r.ObSite("R02f", a.Site, "transition:2->0", g, "a slot may be freed (mark=0) only under mark==2")
 				cleared := 0
 				for _, in := range a.Block.Instrs {
